@@ -76,6 +76,7 @@ func getHooks() SessionHooks {
 }
 
 type obsCache struct {
+	crashed func() bool // the scheduler process has crashed in this cycle: later "decisions" never reach the cluster
 	schedcache.Cache
 	mu        sync.Mutex
 	Decisions []Decision
@@ -84,6 +85,9 @@ type obsCache struct {
 }
 
 func (o *obsCache) add(d Decision) {
+	if o.crashed != nil && o.crashed() && d.Err == "" {
+		d.Err = "the scheduler process crashed before this call reached the API server"
+	}
 	o.mu.Lock()
 	d.Seq = len(o.Decisions)
 	d.Cycle = o.cycle
@@ -331,6 +335,7 @@ func simDiscovery(dra bool) *fakediscovery.FakeDiscovery {
 }
 
 type SchedActor struct {
+	Actor      string // client incarnation name ("scheduler", "scheduler#2", ...)
 	API        *SimAPI
 	Clients    *Clients
 	Obs        *obsCache
@@ -340,11 +345,15 @@ type SchedActor struct {
 	PanicStack string
 }
 
-func NewSchedActor(api *SimAPI, cfg SchedConfig, hooks SessionHooks) *SchedActor {
+func NewSchedActor(api *SimAPI, cfg SchedConfig, hooks SessionHooks, incarnation ...string) *SchedActor {
 	initSchedulerGlobals()
 	freshActions()
 	sc, params := cfg.build()
-	cl := api.ClientsFor("scheduler")
+	actor := "scheduler"
+	if len(incarnation) > 0 && incarnation[0] != "" {
+		actor = incarnation[0]
+	}
+	cl := api.ClientsFor(actor)
 	real := schedcache.New(&schedcache.SchedulerCacheParams{
 		SchedulerName:               params.SchedulerName,
 		NodePoolParams:              params.PartitionParams,
@@ -358,7 +367,14 @@ func NewSchedActor(api *SimAPI, cfg SchedConfig, hooks SessionHooks) *SchedActor
 		UsageDBParams:               usageParams(cfg),
 	})
 	obs := &obsCache{Cache: real}
-	a := &SchedActor{API: api, Clients: cl, Obs: obs, stopCh: make(chan struct{})}
+	if r, ok := hooks.(*Run); ok {
+		obs.crashed = func() bool {
+			r.API.mu.Lock()
+			defer r.API.mu.Unlock()
+			return r.crashAt > 0 && r.schedCalls >= r.crashAt
+		}
+	}
+	a := &SchedActor{API: api, Clients: cl, Obs: obs, stopCh: make(chan struct{}), Actor: actor}
 	a.sched = scheduler.NewSchedulerForSim(obs, sc, params)
 	setCurrent(hooks, obs)
 	real.Run(a.stopCh)
